@@ -76,20 +76,29 @@ func VerifC07_OneQuery() {
 	from := verifC07Addrs[verifChoice(0, len(verifC07Addrs)-1)]
 	n := len(p.tid) - 1 + verifChoice(0, 3)
 	t := verifSymString(n)
-	y := []string{"r", "e", "x"}[verifChoice(0, 2)]
+	y := []string{"r", "e", "x", "q"}[verifChoice(0, 3)]
 	adv := krpc.Msg{Y: y, T: t}
+	if y == "q" {
+		// a query that happens to carry the pending transaction id completes nothing either
+		adv.Q = "ping"
+		adv.A = &krpc.MsgArgs{ID: verifIDInBucket(v.id, 5)}
+	}
 	if y == "r" {
 		adv.R = &krpc.Return{ID: verifIDInBucket(v.id, 5)}
 	}
-	exact := from == dst && t == p.tid
+	exact := from == dst && t == p.tid && y != "q"
 	nodesBefore := v.s.NumNodes()
 	writesBefore := v.sock.attempts
 	v.sock.deliver(verifEncode(adv, 50), from)
-	verifAssert(v.sock.attempts == writesBefore, "C08: nothing is sent in reaction to a response, error or unknown message")
+	if y != "q" {
+		verifAssert(v.sock.attempts == writesBefore, "C08: nothing is sent in reaction to a response, error or unknown message")
+	}
 	if !exact {
 		verifAssert(!p.done, "C07: a datagram from another address or with another transaction id does not complete the query")
 		verifAssert(p.outstanding() == 1, "C07: ... and leaves the pending transaction in place")
-		verifAssert(v.s.NumNodes() == nodesBefore, "C06: an unmatched response adds no routing-table entry")
+		if y != "q" {
+			verifAssert(v.s.NumNodes() == nodesBefore, "C06: an unmatched response adds no routing-table entry")
+		}
 		verifReach("rejected")
 		// the genuine reply still completes it
 		v.sock.deliver(verifEncode(verifReplyMsg(v, p.tid), 50), dst)
